@@ -104,6 +104,40 @@ Section C12.
     = reindex_M pd_get_loc pd_contains cast st new_span new_id fv s2 fills fresh.
   Proof. exact (known_fills_strict_irrelevant pd_get_loc pd_contains cast st new_span new_id fv fills fresh s1 s2). Qed.
 
+  (* ---------- models (BaseModel.reindex): the same statement with status '-' / iterations -1 as the defaults of these two
+     variables (a keyword overrides them, fill_value never reaches them); every other variable as in the container ---------- *)
+  Theorem C12_model_reindex_values (st st' : cst) (new_span : span) (new_id : Z) (fv : pyval) (strict : option bool)
+          (fills : list (string * pyval)) (fresh : Z) :
+    wf st ->
+    old_span_ok pd_get_loc pd_contains (c_span st) (span_labels new_span) ->
+    model_reindex_M pd_get_loc pd_contains cast st new_span new_id fv strict fills fresh = Ret st' ->
+    c_span st' = new_span /\ c_span_id st' = new_id /\ c_strict st' = c_strict st
+    /\ attrs_view (c_attrs st') = attrs_view (c_attrs st)
+    /\ Forall2 (fun a b : string * series cell =>
+                  fst b = fst a /\ s_dtype (snd b) = s_dtype (snd a)
+                  /\ exists c, fill_cell cast (List.length (span_labels new_span)) (s_dtype (snd a))
+                                 (if String.eqb (fst a) "status" then match lookup "status" fills with Some v => v | None => PStr "-" end
+                                  else if String.eqb (fst a) "iterations" then match lookup "iterations" fills with Some v => v | None => PInt (-1) end
+                                  else match lookup (fst a) fills with Some v => v | None => fv end) = Ret c
+                            /\ s_data (snd b) =
+                               map (fun p => match pos p (span_labels (c_span st)) with
+                                             | Some q => nth q (s_data (snd a)) c
+                                             | None => c
+                                             end) (span_labels new_span))
+               (c_vars st) (c_vars st').
+  Proof. exact (model_reindex_values pd_get_loc pd_contains cast st st' new_span new_id fv strict fills fresh). Qed.
+
+  (* ---------- totality: on a well-formed object with an old span of the supported kinds, nothing but the strict test and
+     the conversion of a fill value to its variable's dtype can make reindex fail ---------- *)
+  Theorem C12_reindex_succeeds (st : cst) (new_span : span) (new_id : Z) (fv : pyval) (strict : option bool)
+          (fills : list (string * pyval)) (fresh : Z) :
+    wf st ->
+    old_span_ok pd_get_loc pd_contains (c_span st) (span_labels new_span) ->
+    (effective_strict st strict = false \/ forall kv, In kv fills -> mem_name (fst kv) (c_vars st) = true) ->
+    Forall (fun kv => exists c, fill_cell cast (List.length (span_labels new_span)) (s_dtype (snd kv)) (fill_for fills fv (fst kv)) = Ret c) (c_vars st) ->
+    exists st', reindex_M pd_get_loc pd_contains cast st new_span new_id fv strict fills fresh = Ret st'.
+  Proof. exact (reindex_succeeds pd_get_loc pd_contains cast st new_span new_id fv strict fills fresh). Qed.
+
   (* ---------- the pandas mixin: whatever Series.reindex and the casting assignment answer, its loop leaves span,
      attributes, strictness, variable order, dtypes and every variable not in `names` (status, iterations) as the
      core reindex made them ---------- *)
@@ -116,6 +150,50 @@ Section C12.
     /\ map (fun kv => s_dtype (snd kv)) (c_vars r') = map (fun kv => s_dtype (snd kv)) (c_vars r)
     /\ (forall k, in_names k names = false -> lookup k (c_vars r') = lookup k (c_vars r)).
   Proof. exact (pandas_loop_frame series_reindex assign_cast orig new_span mf fills fv names r r'). Qed.
+  (* each variable in `names` ends up holding NumPy's cast (to the dtype the core reindex kept) of what Series.reindex answered
+     for that variable's method and that variable's fill (per-variable keyword, else fill_value): new periods hold pandas'
+     fills — which is why the default arguments do not reproduce the core's dtype defaults (finding #11) *)
+  Theorem C12_pandas_loop_var orig new_span mf fills fv names r r' :
+    NoDup names ->
+    pandas_loop series_reindex assign_cast orig new_span mf fills fv names r = Ret r' ->
+    forall name, In name names ->
+    exists so sn vals d,
+      lookup name (c_vars orig) = Some so /\ lookup name (c_vars r) = Some sn
+      /\ series_reindex (c_span orig) (s_dtype so) (s_data so) new_span (mf name) (fill_for fills fv name) = Ret vals
+      /\ assign_cast (s_dtype sn) vals = Ret d
+      /\ lookup name (c_vars r') = Some (mkSeries (s_dtype sn) (s_id sn) d).
+  Proof. exact (pandas_loop_var series_reindex assign_cast orig new_span mf fills fv names r r'). Qed.
+
+  (* where pandas' answer, cast back, reproduces the series the core reindex made (float variables with the default NaN fill),
+     the mixin returns exactly the core's result *)
+  Theorem C12_pandas_loop_noop orig new_span mf fills fv names r :
+    (forall name, In name names ->
+       exists so sn, lookup name (c_vars orig) = Some so /\ lookup name (c_vars r) = Some sn
+         /\ exists vals, series_reindex (c_span orig) (s_dtype so) (s_data so) new_span (mf name) (fill_for fills fv name) = Ret vals
+                      /\ assign_cast (s_dtype sn) vals = Ret (s_data sn)) ->
+    pandas_loop series_reindex assign_cast orig new_span mf fills fv names r = Ret r.
+  Proof. exact (pandas_loop_noop series_reindex assign_cast orig new_span mf fills fv names r). Qed.
+  (* the mixin as a whole: it calls the core reindex WITHOUT any fill argument and then overwrites the variables in `names`;
+     so span, strictness, attributes, variable order and dtypes are the core's, and every variable outside `names` (status,
+     iterations) holds its old values at overlapping periods and '-' / -1 at the new ones, whatever keywords were given *)
+  Theorem C12_pandas_reindex_meta (st st' : cst) (names : list string) (new_span : span) (new_id : Z) (method : option string)
+          (fv : pyval) (strict : option bool) (fills : list (string * pyval)) (l1 l2 l3 l4 l5 : list string) (fresh : Z) :
+    wf st ->
+    old_span_ok pd_get_loc pd_contains (c_span st) (span_labels new_span) ->
+    pandas_reindex_M pd_get_loc pd_contains cast series_reindex assign_cast st names new_span new_id method fv strict fills l1 l2 l3 l4 l5 fresh = Ret st' ->
+    c_span st' = new_span /\ c_span_id st' = new_id /\ c_strict st' = c_strict st
+    /\ attrs_view (c_attrs st') = attrs_view (c_attrs st)
+    /\ map fst (c_vars st') = map fst (c_vars st)
+    /\ map (fun kv => s_dtype (snd kv)) (c_vars st') = map (fun kv => s_dtype (snd kv)) (c_vars st)
+    /\ (forall k sr, in_names k names = false -> lookup k (c_vars st) = Some sr ->
+          exists sr' c, lookup k (c_vars st') = Some sr' /\ s_dtype sr' = s_dtype sr
+            /\ fill_cell cast (List.length (span_labels new_span)) (s_dtype sr)
+                 (if String.eqb k "status" then PStr "-" else if String.eqb k "iterations" then PInt (-1) else PNone) = Ret c
+            /\ s_data sr' = map (fun p => match pos p (span_labels (c_span st)) with
+                                          | Some q => nth q (s_data sr) c
+                                          | None => c
+                                          end) (span_labels new_span)).
+  Proof. exact (pandas_reindex_meta pd_get_loc pd_contains cast series_reindex assign_cast st st' names new_span new_id method fv strict fills l1 l2 l3 l4 l5 fresh). Qed.
 End C12.
 Print Assumptions C12_reindex_values.
 Print Assumptions C12_old_span_ok.
@@ -127,6 +205,11 @@ Print Assumptions C12_unknown_fill_rejected_strict.
 Print Assumptions C12_unknown_fill_ignored_not_strict.
 Print Assumptions C12_known_fills_strict_irrelevant.
 Print Assumptions C12_pandas_loop_frame.
+Print Assumptions C12_model_reindex_values.
+Print Assumptions C12_reindex_succeeds.
+Print Assumptions C12_pandas_loop_var.
+Print Assumptions C12_pandas_loop_noop.
+Print Assumptions C12_pandas_reindex_meta.
 
 (* models: status '-' (SolutionStatus.UNSOLVED.value, regenerated) and iterations -1 unless given; fill_value never reaches them *)
 Theorem C12_model_defaults (fills : list (string * pyval)) (fv : pyval) :
@@ -160,3 +243,26 @@ Theorem C12_pandas_default_fill_refuted :
        = Some [CS "-"; CI (-1); CF FNan; CI 0; CB false; CS ""].
 Proof. exact pandas_default_fill_refuted. Qed.
 Print Assumptions C12_pandas_default_fill_refuted.
+
+(* the guard `label_ok` (no tuple label against a NumPy-array old span) of C12_old_span_ok is needed: the new period (2, 3)
+   receives the old value of period 2 instead of the fill NaN *)
+Theorem C12_arr_tuple_label_refuted :
+  exists st st' p, wf st /\ ~ In p (span_labels (c_span st))
+    /\ reindex_M no_pandas no_contains cast_tbl st (SList [p]) 9 PNone None [] 100 = Ret st'
+    /\ map (fun kv => s_data (snd kv)) (c_vars st') = [[CF (FNum 3)]]
+    /\ fill_cell cast_tbl 1 DFloat PNone = Ret (CF FNan).
+Proof. exact reindex_arr_tuple_label_refuted. Qed.
+Print Assumptions C12_arr_tuple_label_refuted.
+
+(* the mixin tests and applies fill keywords against `names` only (which lacks status / iterations): the keyword status='F'
+   is rejected under strict and ignored otherwise, whereas the core reindex of the same model honours it *)
+Theorem C12_pandas_status_keyword_refuted :
+  pandas_reindex_M no_pandas no_contains cast_tbl pd_like_series_reindex np_like_assign_cast
+                   rx_pmodel ["Y"; "I"; "B"; "S"]%string (SRange 2001 1 3) 9 None PNone (Some true) [("status"%string, PStr "F")] [] [] [] [] [] 100 = Raise KeyError
+  /\ (exists st', pandas_reindex_M no_pandas no_contains cast_tbl pd_like_series_reindex np_like_assign_cast
+                   rx_pmodel ["Y"; "I"; "B"; "S"]%string (SRange 2001 1 3) 9 None PNone (Some false) [("status"%string, PStr "F")] [] [] [] [] [] 100 = Ret st'
+                  /\ option_map (fun sr => nth 2 (s_data sr) (CV PNone)) (lookup "status" (c_vars st')) = Some (CS "-"))
+  /\ (exists st', model_reindex_M no_pandas no_contains cast_tbl rx_pmodel (SRange 2001 1 3) 9 PNone (Some true) [("status"%string, PStr "F")] 100 = Ret st'
+                  /\ option_map (fun sr => nth 2 (s_data sr) (CV PNone)) (lookup "status" (c_vars st')) = Some (CS "F")).
+Proof. exact pandas_status_keyword_refuted. Qed.
+Print Assumptions C12_pandas_status_keyword_refuted.
